@@ -371,12 +371,20 @@ def check_hash_order(R, prog):
                 if isinstance(v, ast.List) and v.elts and all(isinstance(e, (ast.Set, ast.SetComp)) or
                                                                 (isinstance(e, ast.Call) and call_name(e) in ("set", "frozenset")) for e in v.elts):
                     setlists.add(s.targets[0].id)
-        if not sets and not setlists and "edgeset" not in src(fi.node):
-            continue
-
         def is_set(e):
             if isinstance(e, ast.Name) and e.id in sets:
                 return True
+            if isinstance(e, (ast.Set, ast.SetComp)) or (isinstance(e, ast.Call) and call_name(e) in ("set", "frozenset")):
+                return True
+            if isinstance(e, ast.Call) and method_name(e) in ("union", "intersection", "difference", "symmetric_difference") and \
+                    is_set(e.func.value):
+                return True
+            if isinstance(e, ast.BinOp) and isinstance(e.op, (ast.BitAnd, ast.BitOr, ast.BitXor, ast.Sub)):
+                # set algebra; dict views (`a.keys() & b.keys()`) give a set as well
+                def setlike(x):
+                    return is_set(x) or (isinstance(x, ast.Call) and method_name(x) in ("keys", "items") and not x.args)
+                if setlike(e.left) or (setlike(e.right) and not isinstance(e.op, ast.Sub)):
+                    return True
             if isinstance(e, ast.Subscript) and isinstance(e.value, ast.Name) and e.value.id in setlists:
                 return True
             if isinstance(e, ast.Attribute) and e.attr == "edgeset":
